@@ -177,7 +177,75 @@ def units(ctx):
     table_core(g, "integrate_chebyshev_second", "WEIGHTS_CHEBYSHEV_SECOND", True)
     table_core(g, "integrate_laguerre", "WEIGHTS_LAGUERRE", False)
     table_core(g, "integrate_gaussian_core", "WEIGHTS_LEGENDRE", True, tol_check=False, var="weights")
-    return [u, g, entry_unit()]
+    return [u, g, entry_unit(), romberg_unit()]
+
+
+def romberg_unit():
+    """integrate_fixed: the value returned is entry (n, n) of the Romberg table built from composite trapezoid/midpoint sums"""
+    from vx.extract import Config
+    c = Config(extra_subst=[("FnMut", "Fn")])
+    e = Unit("C09", "romberg", preludes=("real",), cfg=c)
+    e.rlimit = 100
+    e.timeout = 300
+    e.spec(r"""
+pub uninterp spec fn F(t: real) -> real;
+// slice copy `dst[..i].clone_from_slice(&src[..i])` (std): the first i elements of dst become those of src (rule R13)
+#[verifier::external_body]
+pub fn vx_copy_prefix(dst: &mut Vec<R>, src: &Vec<R>, i: usize)
+    requires i <= old(dst)@.len(), i <= src@.len()
+    ensures final(dst)@.len() == old(dst)@.len(), forall|k: int| 0 <= k < final(dst)@.len() ==> #[trigger] final(dst)@[k] == (if k < i { src@[k] } else { old(dst)@[k] })
+{ unimplemented!() }
+pub proof fn lemma_pow4(k: int) ensures rpowi(4real, k) >= 1real, k >= 1 ==> rpowi(4real, k) >= 4real decreases k
+{ if k >= 1 { lemma_pow4(k - 1); let x = rpowi(4real, k - 1); assert(4real * x >= 4real) by(nonlinear_arith) requires x >= 1real; } }
+// number of new midpoints of row i >= 2 (as the code computes it)
+pub open spec fn mids(i: int) -> int { (1i32 << ((i - 2) as usize)) as int }
+// h of row i:  (b - a) / 2^(i - 1), built by repeated halving
+pub open spec fn hrow(a: real, b: real, i: int) -> real decreases i { if i <= 1 { b - a } else { hrow(a, b, i - 1) * 0.5real } }
+// sum_{k = 1}^{m} F(a + (k - 1/2) h)
+pub open spec fn msum(a: real, h: real, m: int) -> real decreases m { if m <= 0 { 0real } else { msum(a, h, m - 1) + F(a + (m as real - 0.5real) * h) } }
+// the Romberg table: column 1 is the composite trapezoid rule refined by midpoints, column j is Richardson extrapolation with 4^(j-1)
+pub open spec fn rom(a: real, b: real, i: int, j: int) -> real decreases i, j {
+    if i <= 1 { (b - a) * 0.5real * (F(a) + F(b)) }
+    else if j <= 1 { (msum(a, hrow(a, b, i - 1), mids(i)) * hrow(a, b, i - 1) + rom(a, b, i - 1, 1)) * 0.5real }
+    else { rom(a, b, i, j - 1) + (rom(a, b, i, j - 1) - rom(a, b, i - 1, j - 1)) / (rpowi(4real, j - 1) - 1real) }
+}
+""")
+    f = e.fn(IFILE, "integrate_fixed")
+    f.attrs = []
+    f.opt(subst=[("prev_rows[..i].clone_from_slice(&next[..i])", "vx_copy_prefix(&mut prev_rows, &next, i)", "R13-slice-copy")])
+    f.req("forall|t: R| f_0.requires((t,))", "forall|t: R, y: R| f_0.ensures((t,), y) ==> y@ == F(t@)", "1 <= n <= 32")
+    f.ens("left@ >= right@ ==> res is Err",
+          # the result is entry (n, n) of the Romberg table of F on [left, right]
+          "left@ < right@ ==> res is Ok && res->Ok_0@ == rom(left@, right@, n as int, n as int)")
+    FS = ["f == f_0", "forall|t: R| f_0.requires((t,))", "forall|t: R, y: R| f_0.ensures((t,), y) ==> y@ == F(t@)",
+          "half@ == 0.5real && half_real@ == 0.5real && four@ == 4real", "prev_rows@.len() == n && next@.len() == n && 1 <= n <= 32"]
+    f.loop(1, invariant=FS + ["2 <= i <= n + 1", "h@ == hrow(left@, right@, i - 1)",
+                              "forall|q: int| 0 <= q < i - 1 ==> #[trigger] prev_rows@[q]@ == rom(left@, right@, i - 1, q + 1)"])
+    f.loop(2, invariant=FS + ["2 <= i <= n", "1 <= k <= mids(i as int) + 1", "acc@ == msum(left@, h@, k - 1)"])
+    f.loop(3, invariant=FS + ["2 <= i <= n", "2 <= j <= i + 1", "h@ == hrow(left@, right@, i - 1)",
+                              "forall|q: int| 0 <= q < i - 1 ==> #[trigger] prev_rows@[q]@ == rom(left@, right@, i - 1, q + 1)",
+                              "forall|q: int| 0 <= q < j - 1 ==> #[trigger] next@[q]@ == rom(left@, right@, i as int, q + 1)"])
+    f.hint("loop 1 begin", "proof { let sh = (i - 2) as usize; assert(sh <= 30); assert((1i32 << sh) >= 1 && (1i32 << sh) <= 0x4000_0000) by(bit_vector) requires sh <= 30; }")
+    f.anf("next[j - 1] =", "q", bind_operands=True)
+    f.hint("loop 3 begin", "let ghost nx0 = next@;")
+    f.hint("loop 3 end", """proof {
+            let a = left@; let b = right@; let ii = i as int; let jj = j as int;
+            assert(rom(a, b, ii, jj) == rom(a, b, ii, jj - 1) + (rom(a, b, ii, jj - 1) - rom(a, b, ii - 1, jj - 1)) / (rpowi(4real, jj - 1) - 1real));
+            assert(prev_rows@[jj - 2]@ == rom(a, b, ii - 1, jj - 1));
+            assert(nx0[jj - 2]@ == rom(a, b, ii, jj - 1));
+            assert((j as i32 - 1) as int == jj - 1);
+            assert(next@ == nx0.update(jj - 1, next@[jj - 1]));
+            lemma_pow4(jj - 1);
+            assert(vx_q1@ == nx0[jj - 2]@ && vx_q3@ == prev_rows@[jj - 2]@);
+            assert(vx_q5@ == rpowi(four@, jj - 1));
+            assert(vx_q8@ == (nx0[jj - 2]@ - prev_rows@[jj - 2]@) / (rpowi(four@, jj - 1) - 1real));
+            assert(next@[jj - 1]@ == vx_q1@ + vx_q8@);
+            assert(next@[jj - 1]@ == nx0[jj - 2]@ + (nx0[jj - 2]@ - prev_rows@[jj - 2]@) / (rpowi(four@, jj - 1) - 1real));
+            assert(next@[jj - 1]@ == nx0[jj - 2]@ + (nx0[jj - 2]@ - prev_rows@[jj - 2]@) / (rpowi(4real, jj - 1) - 1real));
+            assert(next@[jj - 1]@ == rom(a, b, ii, jj));
+        }""")
+    f.hint("before: h *= half_real", "proof { assert(hrow(left@, right@, i as int) == hrow(left@, right@, i - 1) * 0.5real); }")
+    return e
 
 
 def entry_unit():
@@ -210,13 +278,16 @@ fn integrate_core<F: Fn(R) -> R>(f: F, tol: R) -> (r: Result<R, String>)
 
 
 DECIDED = [
+    "integrate_fixed (Romberg, 1 <= n <= 32): left >= right -> Err; otherwise Ok and the value is exactly entry (n, n) of the Romberg table of f on [left, right]: column 1 is the trapezoid rule refined by the midpoints "
+    "a + (k - 1/2) h_i, k = 1..2^(i-2), column j is the Richardson extrapolation with 4^(j-1) - 1 (recursive spec `rom`)",
     "integrate_simpson: Err for left >= right and tol < 0; an Ok result is the sum of two-panel Simpson values over panels that tile [left, right] exactly, each of which passed its own local test |S2 - S1| < tol_i; every stack entry stores the samples and the Simpson value of its own panel (the pinned tree restored the wrong saved estimate: fixed); f is only evaluated inside [left, right]",
     "integrate_hermite / integrate_chebyshev / integrate_chebyshev_second / integrate_laguerre / integrate_gaussian_core: for every table and callback, an Ok result is rule k of the table (centre node once, other nodes mirrored; Laguerre unmirrored) with |Q_k - Q_{k-1}| < tol and |Q_{k-1} - Q_{k-2}| < tol; tol < 0 -> Err",
     "integrate_gaussian and integrate: left >= right -> Err (integrate_gaussian: repaired), tol < 0 -> Err; the callback handed to the core evaluates f at the affine image scale*x + shift of the reference interval",
 ]
 NOT_DECIDED = [
     "accuracy against the true integral for non-polynomial integrands (the stopping heuristics are not error bounds); combined with C10 the accepted Gaussian rule is exact on polynomials of degree <= 2k+1",
-    "integrate_core (tanh-sinh level loop and its convergence heuristic) and integrate_fixed (Romberg: 1 << k on the default integer type, powi, clone_from_slice on sub-slices are outside the extractor's rules) -- not under contract; Romberg exactness is exercised only by the witness probe",
+    "integrate_core (tanh-sinh level loop and its convergence heuristic) -- not under contract",
+    "Romberg: that entry (n, n) of the table is exact for polynomials of degree <= 2n-1 (Euler-Maclaurin; exercised by the bounded witness probe only)",
     "termination of integrate_simpson (the level cap n_max bounds the depth; the loop itself is marked exec_allows_no_decreases_clause)",
     "the multiplication of the core's result by the scale in the entry points is verified only as executed code, not as a statement about the integral",
 ]
